@@ -6,12 +6,34 @@ import Comrak.Drv.Util
 import Comrak.Drv.C19
 import Comrak.Drv.Html
 import Comrak.Drv.C14
+import Comrak.Drv.Xml
+import Comrak.Drv.Feed
+import Comrak.Drv.C16
+import Comrak.Drv.Sourcepos
+import Comrak.Drv.C15
+import Comrak.Drv.FrontMatter
+import Comrak.Drv.C13
+import Comrak.Drv.Canon
+import Comrak.Drv.C01
+import Comrak.Drv.C04
+import Comrak.Drv.Cm
 namespace Comrak.Drv
 
 def handlers : List Handler :=
   [ Comrak.Drv.C19.handle
   , Comrak.Drv.Html.handle
   , Comrak.Drv.C14.handle
+  , Comrak.Drv.Xml.handle
+  , Comrak.Drv.Feed.handle
+  , Comrak.Drv.C16.handle
+  , Comrak.Drv.Sourcepos.handle
+  , Comrak.Drv.C15.handle
+  , Comrak.Drv.FrontMatter.handle
+  , Comrak.Drv.C13.handle
+  , Comrak.Drv.Canon.handle
+  , Comrak.Drv.C01.handle
+  , Comrak.Drv.C04.handle
+  , Comrak.Drv.Cm.handle
   ]
 
 end Comrak.Drv
